@@ -62,6 +62,7 @@ U_CTX = ["ptw:exp", "mat", "sum", "dl:u", "gauss_d", "ham", "esmul", "einsum", "
 B_CTX = ["add", "mul", "vdot", "pair", "madd", "mmul", "eadd"]
 U_TINY = ["ptw:exp", "einsum", "gauss_d", "ham"]
 B_TINY = ["mul", "pair", "madd", "eadd"]
+MIXED_MARKERS = ('"VCab"', '"pinsVC"', '"vcge"')
 _space_cache = {}
 
 
@@ -133,10 +134,13 @@ def cases(tier, seed):
                 seen.add(k)
                 keys = sorted(X.tree_keys(t))
                 subsets = [list(c) for r in range(1, len(keys)) for c in itertools.combinations(keys, r)]
-                for dt in ("r", "c"):
+                dts = ["r", "c"]
+                if "b" in keys and any(m in k for m in MIXED_MARKERS):
+                    dts.append("m")      # complex input with a REAL inverse-covariance key b (complex VCGE)
+                for dt in dts:
                     for g in grid[size]:
                         for cs in subsets:
-                            out.append(((size, X.tree_depth(t), len(keys), dt != "r", g, len(cs), k, cs),
+                            out.append(((size, X.tree_depth(t), len(keys), "rcm".index(dt), g, len(cs), k, cs),
                                         dict(tree=t, const=cs, dt=dt, g=g, seed=int(seed))))
     out.sort(key=lambda c: c[0])
     return [c for _, c in out]
@@ -159,14 +163,41 @@ def _walk_ops(op, seen=None, depth=0):
     return names
 
 
-def _cols(keys, var, cplx, npix):
-    """column indices of the variable keys in the real-ified tangent space of all keys"""
-    n = len(keys) * npix
-    idx = []
+def _colidx(keys, sel, kc, npix):
+    """columns of the keys `sel` in the tangent basis of `keys`: real units of every key (key order), then
+    imaginary units of the complex keys only (kc: key -> complex?)"""
+    re, im, pos = [], [], len(keys) * npix
     for i, k in enumerate(keys):
-        if k in var:
-            idx += list(range(i * npix, (i + 1) * npix))
-    return idx + [n + j for j in idx] if cplx else idx
+        if k in sel:
+            re += list(range(i * npix, (i + 1) * npix))
+    for k in keys:
+        if kc[k]:
+            if k in sel:
+                im += list(range(pos, pos + npix))
+            pos += npix
+    return re + im
+
+
+def _rowidx(keys, sel, kc, npix):
+    """rows of the keys `sel` in a real-ified output [Re all keys; Im all keys]: real parts, and imaginary
+    parts of the complex keys only (the imaginary part on a real-typed key is not specified)"""
+    n = len(keys) * npix
+    re, im = [], []
+    for i, k in enumerate(keys):
+        if k in sel:
+            re += list(range(i * npix, (i + 1) * npix))
+            if kc[k]:
+                im += list(range(n + i * npix, n + (i + 1) * npix))
+    return re + im
+
+
+REAL_KEYS_MIXED = ("b",)       # dt == "m": every key complex except these (inverse covariance of a complex VCGE)
+
+
+def _point4(E, case, keys):
+    p = E.A["points"][case["g"]]
+    kc = {k: (case["dt"] == "c" or (case["dt"] == "m" and k not in REAL_KEYS_MIXED)) for k in keys}
+    return {k: (p[k][0] + 1j * p[k][1]) if kc[k] else p[k][0].copy() for k in keys}, kc
 
 
 _quieted = []
@@ -184,7 +215,7 @@ def evaluate(case):
     from vf.ref import c03_expr as X
     from vf.ref import c04_expr  # noqa: F401  (registers the composite leaves)
     from vf.props import c03
-    cplx = case["dt"] == "c"
+    cplx = case["dt"] in ("c", "m")
     E = X.get_env(case["seed"], cplx)
     ift = E.ift
     _quiet(ift)
@@ -192,7 +223,8 @@ def evaluate(case):
     keys = sorted(X.tree_keys(t))
     const = list(case["const"])
     var = [k for k in keys if k not in const]
-    inp = c03._point(E, case, keys)
+    inp, kc = _point4(E, case, keys)
+    kcv = {k: kc[k] for k in var}
     try:
         vref = X.ref_eval(t, E, np, inp, True)
     except X.Outside as e:
@@ -216,23 +248,22 @@ def evaluate(case):
             return ("done", fails, stats, info)
         scalar = op.target is ift.DomainTuple.scalar_domain()
         lin0 = op(ift.Linearization.make_var(x, True))
-        J0 = X.dense_apply(lin0.jac.times, lin0.jac.domain, lin0.jac.target, cplx)
+        J0 = X.dense_apply(lin0.jac.times, lin0.jac.domain, lin0.jac.target, kc)
         M0 = None
         if lin0.metric is not None:
-            M0 = X.dense_apply(lin0.metric.times, lin0.metric.domain, lin0.metric.target, cplx)
+            M0 = X.dense_apply(lin0.metric.times, lin0.metric.domain, lin0.metric.target, kc)
     except Exception as e:      # noqa
         if c03._documented_rejection(e) or _jax_dtype_rejection(e):
             return ("skip", "original operator rejects the dtype combination (%s)" % type(e).__name__)
         fails.append(_exc_fail(e, "orig"))
         return ("done", fails, stats, info)
-    cv = _cols(keys, var, cplx, NP)
-    nv = len(var) * NP
+    cv = _colidx(keys, var, kc, NP)
+    rv = _rowidx(var, var, kcv, NP)        # rows of a real-ified output on the variable keys that are compared
     Jexp = J0[:, cv]
     out_c = bool(np.iscomplexobj(X.flat(vref)))
     Mexp = None
     if M0 is not None:
-        rows = _cols(keys, var, True, NP)          # metric output is always real-ified with 2n rows
-        Mexp = M0[rows][:, cv]
+        Mexp = M0[_rowidx(keys, var, kc, NP)][:, cv]
     xc = x.extract_by_keys(const)
     xv = x.extract_by_keys(var)
 
@@ -255,7 +286,7 @@ def evaluate(case):
                 fails.append(F("value", "simplify", "specialised value differs from original (%s)" % _md(v1, v0)))
             for wm in (False, True):
                 lin1 = sop(ift.Linearization.make_var(xv, wm))
-                _cmp_lin(X, lin1, "simplify", wm, v0, Jexp, Mexp, cplx, out_c, nv, fails, stats)
+                _cmp_lin(X, lin1, "simplify", wm, v0, Jexp, Mexp, kcv, out_c, rv, fails, stats)
     except Exception as e:      # noqa
         if c03._documented_rejection(e) or _jax_dtype_rejection(e):
             stats["rejected_dtype"] = stats.get("rejected_dtype", 0) + 1
@@ -278,8 +309,7 @@ def evaluate(case):
                     from vf import dense
                     g0 = lin0.gradient.extract_by_keys(var)
                     a, b = dense.flatten(g), dense.flatten(g0)
-                    if not cplx:
-                        a, b = a.real, b.real
+                    a, b = np.concatenate([a.real, a.imag])[rv], np.concatenate([b.real, b.imag])[rv]
                     if not _close(a, b):
                         fails.append(F("gradient", "EnergyAdapter", "gradient differs from restriction (%s)" % _md(a, b)))
                     if list(ea.position.domain.keys()) != var:
@@ -289,8 +319,8 @@ def evaluate(case):
                     if met is None:
                         fails.append(F("metric-missing", "EnergyAdapter", "no metric although the original has one"))
                     else:
-                        M1 = X.dense_apply(met.times, met.domain, met.target, cplx)[:(2 * nv if cplx else nv)]
-                        if not _close(M1, Mexp[:(2 * nv if cplx else nv)]):
+                        M1 = X.dense_apply(met.times, met.domain, met.target, kcv)[rv]
+                        if not _close(M1, Mexp):
                             fails.append(F("metric", "EnergyAdapter", "metric differs from var block (%s)" % _md(M1, Mexp)))
         except Exception as e:      # noqa
             if c03._documented_rejection(e) or _jax_dtype_rejection(e):
@@ -302,13 +332,13 @@ def evaluate(case):
     return ("done", fails, stats, info)
 
 
-def _cmp_lin(X, lin1, api, wm, v0, Jexp, Mexp, cplx, out_c, nv, fails, stats):
+def _cmp_lin(X, lin1, api, wm, v0, Jexp, Mexp, kcv, out_c, rv, fails, stats):
     from vf.props import c03
     F = c03.Fail
     v = c03._flatval(lin1.val)
     if not _close(v, v0):
         fails.append(F("value", api, "Linearization value of the specialised operator differs (%s)" % _md(v, v0)))
-    T = X.dense_apply(lin1.jac.times, lin1.jac.domain, lin1.jac.target, cplx)
+    T = X.dense_apply(lin1.jac.times, lin1.jac.domain, lin1.jac.target, kcv)
     stats["jac_columns"] = stats.get("jac_columns", 0) + T.shape[1]
     if not _close(T, Jexp):
         fails.append(F("jac", api, "Jacobian of the specialised operator is not the variable-key block of the "
@@ -325,21 +355,22 @@ def _cmp_lin(X, lin1, api, wm, v0, Jexp, Mexp, cplx, out_c, nv, fails, stats):
         if A is not None:
             m = T.shape[0] // 2
             exp = T.T[:, :(2 * m if out_c else m)]
-            got = A[:(2 * nv if cplx else nv)]
+            got = A[rv]
             if not _close(got, exp):
                 fails.append(F("adjoint", api, "adjoint_times of the specialised Jacobian is not its transpose (%s)" % _md(got, exp)))
     if wm and Mexp is not None:
         if lin1.metric is None:
             fails.append(F("metric-missing", api, "specialised operator returns no metric, the original does"))
         else:
-            M1 = X.dense_apply(lin1.metric.times, lin1.metric.domain, lin1.metric.target, cplx)
-            k = 2 * nv if cplx else nv
-            if not _close(M1[:k], Mexp[:k]):
+            M1 = X.dense_apply(lin1.metric.times, lin1.metric.domain, lin1.metric.target, kcv)[rv]
+            if not _close(M1, Mexp):
                 fails.append(F("metric", api, "metric of the specialised operator is not the var x var block of the "
                                "original (%s)\nspecialised=%s\noriginal block=%s" % (
-                                   _md(M1[:k], Mexp[:k]), np.array2string(M1[:k], precision=5),
-                                   np.array2string(Mexp[:k], precision=5))))
+                                   _md(M1, Mexp), np.array2string(M1, precision=5),
+                                   np.array2string(Mexp, precision=5))))
             stats["metric_checked"] = stats.get("metric_checked", 0) + 1
+            if any(kcv.values()):
+                stats["metric_checked_complex"] = stats.get("metric_checked_complex", 0) + 1
 
 
 def _jax_dtype_rejection(e):
@@ -407,7 +438,7 @@ def run(case):
     _, fails, stats, info = r
     stats["cpu_s"] = time.process_time() - t0
     t = case["tree"]
-    dts = "complex" if case["dt"] == "c" else "real"
+    dts = {"c": "complex", "r": "real", "m": "complex+real-icov"}[case["dt"]]
     if fails:
         f = fails[0]
         c = culprit(case)
